@@ -61,20 +61,46 @@ var (
 	mavenNames = []string{"org.verif:alpha", "org.verif:bravo-kit", "com.acme.lib:charlie", "io.delta:delta-x", "org.verif:echo", "net.fox:fox-trot", "org.verif:golf", "org.verif:hotel", "com.acme.lib:india"}
 )
 
-func pct(t *rapid.T, label string) int { return rapid.IntRange(0, 99).Draw(t, label) }
+// IntIn draws an integer uniformly from [lo, hi]. rapid's own integer generators are
+// deliberately biased towards small and boundary values (IntRange(0,99) is below 3 a quarter
+// of the time), which would distort every percentage below; this one builds the value from
+// unbiased bits. It shrinks towards lo.
+func IntIn(t *rapid.T, lo, hi int, label string) int {
+	if hi <= lo {
+		return lo
+	}
+	n := uint64(hi-lo) + 1
+	bits := 3
+	for m := n - 1; m > 0; m >>= 1 {
+		bits++
+	}
+	var v uint64
+	for i := 0; i < bits; i++ {
+		v <<= 1
+		if rapid.Bool().Draw(t, label) {
+			v |= 1
+		}
+	}
+	return lo + int(v%n)
+}
+
+// Pct draws a uniform percentage 0..99.
+func Pct(t *rapid.T, label string) int { return IntIn(t, 0, 99, label) }
+
+func pct(t *rapid.T, label string) int { return Pct(t, label) }
 
 // genVersions draws an ascending list of 1..maxN distinct versions.
 func genVersions(t *rapid.T, system string, maxN int, label string) []Ver {
-	n := rapid.IntRange(1, maxN).Draw(t, label+".n")
-	cur := Ver{Major: rapid.IntRange(0, 2).Draw(t, label+".maj"), Minor: rapid.IntRange(0, 3).Draw(t, label+".min"), Patch: rapid.IntRange(0, 3).Draw(t, label+".pat")}
+	n := IntIn(t, 1, maxN, label+".n")
+	cur := Ver{Major: IntIn(t, 0, 2, label+".maj"), Minor: IntIn(t, 0, 3, label+".min"), Patch: IntIn(t, 0, 3, label+".pat")}
 	var out []Ver
 	for len(out) < n {
 		added := false
 		if pct(t, label+".pre?") < 18 {
 			// one or two pre-releases of cur, ascending
-			k := rapid.IntRange(1, 2).Draw(t, label+".npre")
-			pre := rapid.IntRange(1, 3).Draw(t, label+".pre")
-			num := rapid.IntRange(0, 2).Draw(t, label+".prenum")
+			k := IntIn(t, 1, 2, label+".npre")
+			pre := IntIn(t, 1, 3, label+".pre")
+			num := IntIn(t, 0, 2, label+".prenum")
 			for i := 0; i < k && len(out) < n; i++ {
 				v := cur
 				v.Pre, v.PreNum = pre, num
@@ -96,9 +122,9 @@ func genVersions(t *rapid.T, system string, maxN int, label string) []Ver {
 		}
 		switch s := pct(t, label+".step"); {
 		case s < 50:
-			cur.Patch += rapid.IntRange(1, 2).Draw(t, label+".dp")
+			cur.Patch += IntIn(t, 1, 2, label+".dp")
 		case s < 80:
-			cur.Minor, cur.Patch = cur.Minor+rapid.IntRange(1, 2).Draw(t, label+".dm"), 0
+			cur.Minor, cur.Patch = cur.Minor+IntIn(t, 1, 2, label+".dm"), 0
 		default:
 			cur.Major, cur.Minor, cur.Patch = cur.Major+1, 0, 0
 		}
@@ -116,6 +142,9 @@ func genReq(t *rapid.T, cfg GenConfig, vs []Ver, k int, hasLatest bool, label st
 		u := v
 		u.Patch += 7
 		u.Pre, u.PreNum, u.Short = 0, 0, false
+		if sys == Maven && pct(t, label+".unknownhard") < 30 {
+			return "[" + u.Render(sys) + "]" // hard requirement no known version satisfies
+		}
 		return u.Render(sys) // pinned / soft requirement on a version that does not exist
 	}
 	form := pct(t, label+".form")
@@ -128,7 +157,7 @@ func genReq(t *rapid.T, cfg GenConfig, vs []Ver, k int, hasLatest bool, label st
 		case form < 79:
 			return "[" + vstr + "," + Ver{Major: v.Major + 1}.Render(sys) + ")"
 		case form < 87:
-			w := vs[rapid.IntRange(k, len(vs)-1).Draw(t, label+".hi")]
+			w := vs[IntIn(t, k, len(vs)-1, label+".hi")]
 			return "[" + vstr + "," + w.Render(sys) + "]"
 		case form < 95:
 			return "[" + vstr + ",)"
@@ -178,7 +207,7 @@ func GenUniverse(t *rapid.T, cfg GenConfig) Universe {
 	if cfg.System == Maven {
 		names = mavenNames
 	}
-	np := rapid.IntRange(cfg.MinPackages, min(cfg.MaxPackages, len(names))).Draw(t, "npkgs")
+	np := IntIn(t, cfg.MinPackages, min(cfg.MaxPackages, len(names)), "npkgs")
 	pkgs := make([]genPkg, np)
 	for i := range pkgs {
 		lbl := fmt.Sprintf("p%d", i)
@@ -203,7 +232,7 @@ func GenUniverse(t *rapid.T, cfg GenConfig) Universe {
 				hi = len(pkgs[i].vers) - 1
 			}
 			if pct(t, lbl+".tagold") < 25 {
-				hi = rapid.IntRange(0, len(pkgs[i].vers)-1).Draw(t, lbl+".tagidx")
+				hi = IntIn(t, 0, len(pkgs[i].vers)-1, lbl+".tagidx")
 			}
 			pkgs[i].latest = hi
 		}
@@ -217,8 +246,8 @@ func GenUniverse(t *rapid.T, cfg GenConfig) Universe {
 				n := len(pkgs[i].vers)
 				from, until := 0, n
 				if n > 1 && pct(t, fmt.Sprintf("dep%d_%d.partial", i, j)) < 30 {
-					from = rapid.IntRange(0, n-1).Draw(t, fmt.Sprintf("dep%d_%d.from", i, j))
-					until = rapid.IntRange(from+1, n).Draw(t, fmt.Sprintf("dep%d_%d.until", i, j))
+					from = IntIn(t, 0, n-1, fmt.Sprintf("dep%d_%d.from", i, j))
+					until = IntIn(t, from+1, n, fmt.Sprintf("dep%d_%d.until", i, j))
 				}
 				plans[i] = append(plans[i], plan{to: j, from: from, until: until})
 			}
@@ -244,7 +273,7 @@ func GenUniverse(t *rapid.T, cfg GenConfig) Universe {
 				if len(tgt.vers) > 1 {
 					centre := vi * (len(tgt.vers) - 1) / max(1, len(p.vers)-1)
 					lo, hi := max(0, centre-2), min(len(tgt.vers)-1, centre+1)
-					k = rapid.IntRange(lo, hi).Draw(t, lbl+".k")
+					k = IntIn(t, lo, hi, lbl+".k")
 				}
 				req := genReq(t, cfg, tgt.vers, k, tgt.latest >= 0, lbl)
 				typ := ""
@@ -273,8 +302,8 @@ func GenManifest(t *rapid.T, ix *Index, cfg GenConfig) Manifest {
 		avail[i] = i
 	}
 	pickVersion := func(p *IndexPackage, lbl string) int {
-		a := rapid.IntRange(0, len(p.Versions)-1).Draw(t, lbl+".va")
-		b := rapid.IntRange(0, len(p.Versions)-1).Draw(t, lbl+".vb")
+		a := IntIn(t, 0, len(p.Versions)-1, lbl+".va")
+		b := IntIn(t, 0, len(p.Versions)-1, lbl+".vb")
 		return min(a, b)
 	}
 	vers := func(p *IndexPackage) ([]Ver, bool) {
@@ -290,11 +319,11 @@ func GenManifest(t *rapid.T, ix *Index, cfg GenConfig) Manifest {
 		}
 		return out, latest
 	}
-	nd := rapid.IntRange(1, min(4, len(avail))).Draw(t, "ndirect")
+	nd := IntIn(t, 1, min(4, len(avail)), "ndirect")
 	for d := 0; d < nd; d++ {
 		lbl := fmt.Sprintf("d%d", d)
-		a := rapid.IntRange(0, len(avail)-1).Draw(t, lbl+".pa")
-		b := rapid.IntRange(0, len(avail)-1).Draw(t, lbl+".pb")
+		a := IntIn(t, 0, len(avail)-1, lbl+".pa")
+		b := IntIn(t, 0, len(avail)-1, lbl+".pb")
 		pos := min(a, b) // low indices have the dependencies
 		p := &ix.Packages[avail[pos]]
 		avail = append(avail[:pos:pos], avail[pos+1:]...)
@@ -322,11 +351,11 @@ func GenManifest(t *rapid.T, ix *Index, cfg GenConfig) Manifest {
 		m.Deps = append(m.Deps, r)
 	}
 	if cfg.System == Maven && pct(t, "mgmt?") < 40 {
-		nm := rapid.IntRange(1, 2).Draw(t, "nmgmt")
+		nm := IntIn(t, 1, 2, "nmgmt")
 		seen := map[string]bool{}
 		for i := 0; i < nm; i++ {
 			lbl := fmt.Sprintf("m%d", i)
-			p := &ix.Packages[rapid.IntRange(0, len(ix.Packages)-1).Draw(t, lbl+".p")]
+			p := &ix.Packages[IntIn(t, 0, len(ix.Packages)-1, lbl+".p")]
 			if seen[p.Name] {
 				continue
 			}
@@ -373,7 +402,7 @@ func genRange(t *rapid.T, cfg GenConfig, p *IndexPackage, lbl string) OSVRange {
 	}
 	intro := -1 // -1: "0"
 	if pct(t, lbl+".intro0") >= 50 {
-		intro = rapid.IntRange(0, n-1).Draw(t, lbl+".intro")
+		intro = IntIn(t, 0, n-1, lbl+".intro")
 	}
 	if intro < 0 {
 		r.Events = append(r.Events, OSVEvent{Introduced: "0"})
@@ -385,7 +414,7 @@ func genRange(t *rapid.T, cfg GenConfig, p *IndexPackage, lbl string) OSVRange {
 	switch {
 	case end < 62: // fixed
 		if lo+1 <= n-1 {
-			f := rapid.IntRange(lo+1, n-1).Draw(t, lbl+".fix")
+			f := IntIn(t, lo+1, n-1, lbl+".fix")
 			fv := p.Versions[f].Version
 			if pct(t, lbl+".fixbetween") < 15 {
 				if b, ok := between(p.Versions[f-1].V, p.Versions[f].V); ok {
@@ -395,10 +424,10 @@ func genRange(t *rapid.T, cfg GenConfig, p *IndexPackage, lbl string) OSVRange {
 			r.Events = append(r.Events, OSVEvent{Fixed: fv})
 			// occasionally re-introduced later
 			if f+1 <= n-1 && pct(t, lbl+".again") < 15 {
-				g := rapid.IntRange(f+1, n-1).Draw(t, lbl+".intro2")
+				g := IntIn(t, f+1, n-1, lbl+".intro2")
 				r.Events = append(r.Events, OSVEvent{Introduced: p.Versions[g].Version})
 				if g+1 <= n-1 && rapid.Bool().Draw(t, lbl+".fix2?") {
-					h := rapid.IntRange(g+1, n-1).Draw(t, lbl+".fix2")
+					h := IntIn(t, g+1, n-1, lbl+".fix2")
 					r.Events = append(r.Events, OSVEvent{Fixed: p.Versions[h].Version})
 				}
 			}
@@ -408,7 +437,7 @@ func genRange(t *rapid.T, cfg GenConfig, p *IndexPackage, lbl string) OSVRange {
 			r.Events = append(r.Events, OSVEvent{Fixed: Ver{Major: top.Major, Minor: top.Minor + 1}.Render(sys)})
 		}
 	case end < 77: // last_affected
-		l := rapid.IntRange(lo, n-1).Draw(t, lbl+".last")
+		l := IntIn(t, lo, n-1, lbl+".last")
 		r.Events = append(r.Events, OSVEvent{LastAffected: p.Versions[l].Version})
 	default: // no fix
 	}
@@ -427,7 +456,7 @@ func genRange(t *rapid.T, cfg GenConfig, p *IndexPackage, lbl string) OSVRange {
 func GenVulns(t *rapid.T, ix *Index, cfg GenConfig) []OSV {
 	cfg = cfg.norm()
 	eco := Ecosystem(cfg.System)
-	n := rapid.IntRange(cfg.MinVulns, cfg.MaxVulns).Draw(t, "nvulns")
+	n := IntIn(t, cfg.MinVulns, cfg.MaxVulns, "nvulns")
 	out := make([]OSV, 0, n)
 	for i := 0; i < n; i++ {
 		lbl := fmt.Sprintf("v%d", i)
@@ -442,7 +471,7 @@ func GenVulns(t *rapid.T, ix *Index, cfg GenConfig) []OSV {
 		sevMode := pct(t, lbl+".sev")
 		for a := 0; a < na; a++ {
 			albl := fmt.Sprintf("%s.a%d", lbl, a)
-			p := &ix.Packages[rapid.IntRange(0, len(ix.Packages)-1).Draw(t, albl+".pkg")]
+			p := &ix.Packages[IntIn(t, 0, len(ix.Packages)-1, albl+".pkg")]
 			af := OSVAffected{Package: OSVPackage{Ecosystem: eco, Name: p.Name}}
 			if a == 1 && pct(t, albl+".noise") < 25 {
 				af.Package.Ecosystem = "PyPI" // same name in another ecosystem: must never match
@@ -459,17 +488,17 @@ func GenVulns(t *rapid.T, ix *Index, cfg GenConfig) []OSV {
 				}
 			case vm < 42:
 				// versions only
-				k := rapid.IntRange(0, len(p.Versions)-1).Draw(t, albl+".only")
+				k := IntIn(t, 0, len(p.Versions)-1, albl+".only")
 				af.Versions = []string{p.Versions[k].Version}
 				af.Ranges = nil
 			}
 			if sevMode >= 75 {
-				af.Severity = []OSVSeverity{cvssVectors[rapid.IntRange(0, len(cvssVectors)-1).Draw(t, albl+".cvss")]}
+				af.Severity = []OSVSeverity{cvssVectors[IntIn(t, 0, len(cvssVectors)-1, albl+".cvss")]}
 			}
 			o.Affected = append(o.Affected, af)
 		}
 		if sevMode >= 35 && sevMode < 75 {
-			o.Severity = []OSVSeverity{cvssVectors[rapid.IntRange(0, len(cvssVectors)-1).Draw(t, lbl+".cvss")]}
+			o.Severity = []OSVSeverity{cvssVectors[IntIn(t, 0, len(cvssVectors)-1, lbl+".cvss")]}
 		}
 		out = append(out, o)
 	}
@@ -549,9 +578,9 @@ func genLevel(t *rapid.T, label string, weights [4]int) string {
 // GenLevels draws a default level and 0..2 per-package overrides.
 func GenLevels(t *rapid.T, ix *Index) Levels {
 	l := Levels{Default: genLevel(t, "level.default", [4]int{50, 22, 20, 8})}
-	n := rapid.IntRange(0, 2).Draw(t, "level.noverrides")
+	n := IntIn(t, 0, 2, "level.noverrides")
 	for i := 0; i < n; i++ {
-		p := ix.Packages[rapid.IntRange(0, len(ix.Packages)-1).Draw(t, fmt.Sprintf("level.o%d.pkg", i))]
+		p := ix.Packages[IntIn(t, 0, len(ix.Packages)-1, fmt.Sprintf("level.o%d.pkg", i))]
 		if l.Packages == nil {
 			l.Packages = map[string]string{}
 		}
